@@ -114,7 +114,13 @@ int main(void) {
     VP_RUN(THR(c))
 #endif
   }
-#ifdef NOQUIESCE   /* safety-only variant: ROUNDS free slices per thread, all threads must have returned */
+#ifdef NOQUIESCE   /* safety-only variant: ROUNDS free slices per thread [+ one forced slice each with -DFORCED1], all threads must have returned */
+#ifdef FORCED1
+  vp_cur = 0; VP_RUNMAX(THR(a)) vp_cur = 1; VP_RUNMAX(THR(b))
+#if NT == 3
+  vp_cur = 2; VP_RUNMAX(THR(c))
+#endif
+#endif
 #if NT == 3
   __CPROVER_assume(THR(a_fin) && THR(b_fin) && THR(c_fin));
 #else
